@@ -20,13 +20,40 @@ The extension wraps the core machine unchanged: `XOp.core op` is `step` on the c
 `hookRaise` are the two ways the executing hook can end. A hook that blocks for ever is the absence of
 either op. The hooks never touch the client's call-matching state (they get the client object, and anything
 they do with it goes through the core ops: a `request()` they make is a `call`).
+
+## Traffic in both directions: the peer's own requests (`handle_request`)
+
+```
+message = RMCMessage.parse(self.settings, data)
+if message.mode == RMCMessage.REQUEST:
+    await self.handle_request(message)        -- never looks at `requests` / `responses`, whatever `message.call_id` is
+else: ... (core `recvResponse`)
+```
+`handle_request`: `if request.protocol in self.servers: await self.servers[request.protocol].handle(...)` (may
+suspend: the receive loop is suspended with it; may return or raise `RMCError` / any exception), then ONE response
+message carrying `request.call_id` (success, or the error of the exception) is sent; an unregistered protocol is
+answered at once with the error `Core::NotImplemented`. `peerRequest r` = the loop iteration from `recv()` returning a
+REQUEST up to entering `server.handle` (or up to sending the NotImplemented answer); `handlerEnd ok` = the executing
+`handle` returned (`ok`) / raised, the answer is encoded and sent. On the core machine a `peerRequest` is the core op
+`recvRequest` (state unchanged, no output): the peer's call ids live in a name space of their own, a request whose call
+id equals the id of one of our outstanding calls is still a request. (Servers with `NORESPONSE = True` are not modelled.)
 -/
 namespace Nx.RmcClient
+open Nx Nx.Rmc
+
+/-- a REQUEST message received from the peer (the fields `handle_request` uses) -/
+structure PeerReq where
+  protocol : Nat
+  method : Nat
+  callId : Nat
+  deriving DecidableEq, Repr
 
 inductive XOp where
   | core (op : Op)
   | hookReturn          -- the executing `server.logout(self)` returned
   | hookRaise           -- the executing `server.logout(self)` raised
+  | peerRequest (r : PeerReq)   -- the loop received a REQUEST message (any call id) and ran `handle_request` up to its first await
+  | handlerEnd (ok : Bool)      -- the executing `server.handle(...)` returned (`ok`) / raised: the answer is sent
   deriving DecidableEq, Repr
 
 inductive XOut where
@@ -35,6 +62,10 @@ inductive XOut where
   | cleanupReturned         -- `cleanup()` ran to its end (then `close()`/`disconnect()` close the transport, `start()` returns)
   | cleanupRaised           -- `cleanup()` was left by the exception of a hook (remaining hooks are not called)
   | noHook                  -- (never happens at run time) no hook is executing
+  | dispatch (srv method callId : Nat)          -- `self.servers[protocol].handle(self, method, ...)` of the `srv`-th server was entered
+  | notImplemented (protocol callId : Nat)      -- unregistered protocol: the error answer `Core::NotImplemented` carrying `callId` was sent
+  | answer (protocol callId : Nat) (ok : Bool)  -- the answer to the handled request was sent: success / error, carrying `callId`
+  | noHandler               -- (never happens at run time) no `handle` is executing
   deriving DecidableEq, Repr
 
 /-- 0 = `cleanup()` body never entered, 1 = running its hooks, 2 = returned, 3 = raised -/
@@ -43,10 +74,18 @@ structure XState where
   servers : List Nat
   pending : List Nat
   status : Nat
+  handling : Option PeerReq   -- the peer request whose `server.handle` is executing (the receive loop is suspended in it)
   deriving DecidableEq, Repr
 
 def xinit (n nservers : Nat) : XState :=
-  { core := { init with nextId := n }, servers := List.range nservers, pending := [], status := 0 }
+  { core := { init with nextId := n }, servers := List.range nservers, pending := [], status := 0, handling := none }
+
+/-- `PROTOCOL_ID` of the `srv`-th server handed to `start(servers)` (the convention of the scenario runner,
+    `rmc_client_sim.FakeServer`: 0x50 + index) -/
+def protoOf (srv : Nat) : Nat := 80 + srv
+
+/-- `self.servers.get(protocol)` -/
+def serverFor (x : XState) (protocol : Nat) : Option Nat := x.servers.find? fun srv => protoOf srv = protocol
 
 /-- does this core op execute the body of `cleanup()` in state `s`? -/
 def runsCleanup (s : State) : Op → Bool
@@ -75,6 +114,25 @@ def xstep (x : XState) : XOp → XState × List XOut
     match x.pending with
     | [] => (x, [.noHook])
     | _ :: _ => ({ x with pending := [], status := 3 }, [.cleanupRaised])
+  | .peerRequest r =>
+    let (s', o) := step x.core .recvRequest
+    let x1 := { x with core := s' }
+    match serverFor x r.protocol with
+    | some srv => ({ x1 with handling := some r }, o.map .core ++ [.dispatch srv r.method r.callId])
+    | none => (x1, o.map .core ++ [.notImplemented r.protocol r.callId])
+  | .handlerEnd ok =>
+    match x.handling with
+    | none => (x, [.noHandler])
+    | some r => ({ x with handling := none }, [.answer r.protocol r.callId ok])
+
+/-- what the `start()` loop does with one datagram (extends `opOfData`): `RMCMessage.parse`, then the mode test —
+    the ONLY thing that decides between `handle_request` and the call-id lookup. `none` = `parse` raised. -/
+def xopOfData (data : Bytes) : Option XOp :=
+  match decode data with
+  | .error _ => none
+  | .ok m =>
+    if m.mode = 0 then some (.peerRequest { protocol := m.protocol, method := m.method.getD 0, callId := m.callId })
+    else some (.core (.recvResponse m))
 
 def xrun (x : XState) : List XOp → XState × List XOut
   | [] => (x, [])
@@ -87,7 +145,28 @@ def xrun (x : XState) : List XOp → XState × List XOut
 def coreOps : List XOp → List Op
   | [] => []
   | .core op :: r => op :: coreOps r
-  | _ :: r => coreOps r
+  | .peerRequest _ :: r => .recvRequest :: coreOps r
+  | .hookReturn :: r | .hookRaise :: r | .handlerEnd _ :: r => coreOps r
+
+/-- the peer's requests of an extended op sequence, in order -/
+def peerReqs : List XOp → List PeerReq
+  | [] => []
+  | .peerRequest q :: r => q :: peerReqs r
+  | _ :: r => peerReqs r
+
+/-- the call ids of the peer requests an output sequence says were served (handed to a server's `handle`, or refused
+    with the NotImplemented answer), in order -/
+def servedIds : List XOut → List Nat
+  | [] => []
+  | .dispatch _ _ id :: r => id :: servedIds r
+  | .notImplemented _ id :: r => id :: servedIds r
+  | _ :: r => servedIds r
+
+/-- the call ids carried by the answers sent for handled requests, in order -/
+def answeredIds : List XOut → List Nat
+  | [] => []
+  | .answer _ id _ :: r => id :: answeredIds r
+  | _ :: r => answeredIds r
 
 /-- the core outputs of an extended output sequence, in order -/
 def coreOuts : List XOut → List Out
